@@ -8,6 +8,7 @@ import DispatchVerif.Core.Utf16P
 import DispatchVerif.Core.QueueP
 import DispatchVerif.Core.DataP
 import DispatchVerif.Core.TimerP
+import DispatchVerif.Core.IoP4
 import Driver.HeapChk
 /-! `dvdriver`: line-protocol driver over the Lean models — the same definitions the theorems are about.
     One operation per line in, one canonical result per line out; the C harnesses answer the same lines with
@@ -122,6 +123,46 @@ def runData (toks : List String) : String := Id.run do
   | [] => out := out ++ "empty-stack"
   return out
 
+/-! ### one dispatch_io_read on a stream: `IO <length> <low> <high> <ret> <ret> …` where the `ret`s are what the
+    successive read() calls returned on the real run (bytes, 0 = EOF, -11 = EAGAIN, other negative = -errno);
+    the payload byte at stream position p is p % 251. Output: requested length and result of every read(), then the
+    handler calls — both must equal what the real library did. -/
+def runIo (length low high : Option Nat) (rets : List Int) : String := Id.run do
+  -- channel parameters as set by dispatch_io_set_high_water then dispatch_io_set_low_water
+  let mut lo := 1048576
+  let mut hi : Nat := 18446744073709551615
+  if let some h := high then
+    if lo > h then lo := h
+    hi := if h = 0 then 1 else h
+  if let some l := low then
+    if hi < l then hi := if l = 0 then 1 else l
+    lo := l
+  let mut op : IoP.Op := { length := length, low := lo, high := hi, chunk := 1048576 }
+  let mut pos := 0
+  let mut reads : List String := []
+  let mut calls : List IoP.Call := []
+  let mut fin := false
+  if length = some 0 then
+    -- _dispatch_operation_create short-circuits a zero-length operation: one handler call, no read()
+    return "reads= calls=1:0:0:-"
+  for r in rets do
+    if fin then
+      reads := reads ++ [s!"EXTRA:{r}"]
+    else
+      let len := IoP.readLen op
+      reads := reads ++ [s!"{len}:{r}"]
+      let o : IoP.Outcome :=
+        if r > 0 then .bytes ((List.range r.toNat).map fun i => UInt8.ofNat ((pos + i) % 251))
+        else if r = 0 then .eof
+        else if r = -11 then .eagain
+        else .error (-r).toNat
+      if r > 0 then pos := pos + r.toNat
+      let (op', c, f) := IoP.handle op o
+      op := op'; calls := calls ++ c; fin := f
+  if !fin then reads := reads ++ ["UNFINISHED"]
+  return "reads=" ++ String.intercalate "," reads ++ " calls=" ++
+    String.intercalate "|" (calls.map fun c => s!"{if c.done then 1 else 0}:{c.data.length}:{c.err}:{toHex (c.data.map (·.toNat))}")
+
 def parseParents (s : String) : List (Option Nat) :=
   (s.splitOn ",").map fun t => if t.startsWith "-" then none else t.toNat?
 
@@ -151,6 +192,7 @@ def handle (line : String) : String :=
     | _, _, _, _ => "bad-op"
   | ["X2", fi, fo, spec] => transform fi fo spec
   | "X" :: toks => runData toks
+  | "IO" :: len :: low :: high :: rets => runIo (optNat len) (optNat low) (optNat high) (rets.map (·.toInt!))
   | ["CM", t, d, i, n, p] =>
     let o := TimerP.computeMissed t.toNat! d.toNat! i.toNat! n.toNat! p.toNat!
     s!"{o.data} {o.target} {o.deadline}"
